@@ -183,9 +183,10 @@ def r_transform(ck: Checker) -> None:
     stores = [a for a in find_nodes(nn.node, lambda x: isinstance(x, ast.Assign)) if isinstance(a.targets[0], ast.Subscript) and unparse(a.targets[0].value) == "self.new_names"]  # type: ignore[attr-defined]
     ck.need(len(stores) >= 1, "_new_name remembers the chosen name in self.new_names")
     np_ = nn.params()[2]
+    itn = ck.interp(nn)
     for a in stores:
-        val = unparse(a.value).replace(" ", "")  # type: ignore[attr-defined]
-        okv = val == f"self.unique_names.new_predicate({np_}.name,{np_}.arity).name"
+        vals_ = {t.replace(" ", "") for t in itn.texts(a, a.value)} or {unparse(a.value).replace(" ", "")}  # type: ignore[attr-defined]
+        okv = vals_ == {f"self.unique_names.new_predicate({np_}.name,{np_}.arity).name"}
         ck.add("every remembered name was handed out by UniqueNames for the reduced (name, arity)", okv, nn, a, f"`{short(unparse(a), 100)}`",
                "a name kept without asking is not registered with the name generator: a second predicate reduced to the same signature gets the very same name (one invented predicate serves two purposes)")
     # applied to every SymbolicAtom of every statement
